@@ -152,7 +152,7 @@ func rebuildTape(dir string, c h.Cfg, drive string, tag string, s *h.Session) re
 		res.err = "env: " + err.Error()
 		return res
 	}
-	defer e.Close()
+	defer e.Shutdown()
 	defer os.Remove(filepath.Join(dir, "index-"+tag+".sqlite"))
 	ss := h.NewSession(e)
 	ss.Timeout = s.Timeout
